@@ -50,3 +50,66 @@ for _sec, _bf, _ua in ((None, 6, None), (8, 6, 7), (None, 9, 4), (8, 3, 5)):
                       % ('' if _sec is None else ' and %s' % _sec, _bf, _ua),
                covers=['done'],
                replay=replay_scn(_sec, None, bob_from=_bf, actions=[('alice', _ua), ('bob', None), ('alice', None)]))(_ob_two_users(_sec, _bf, _ua))
+
+
+def _ob_emergency_then_claims(I):
+    """carol emergency-withdraws a CLOSED (still locked) position at epoch 10; in epoch 11 alice and bob claim"""
+    sc = Scn(I, alice_second=None, bob_from=6)
+    b = sc.b
+    f0 = sc.farms[0]
+    I.assume(smt.Eq(f0['claimed0'], 0))
+    pc = I.sym('pos_c', lo=1, hi=U128 // 64)
+    put_position(I, position('u-c', LP1, pc, 30 * DAY, 'carol', 25 * DAY))      # closed at some point, unlocks at day 25 > now (day 10)
+    b.set(FM, LP1, simp(b.get(FM, LP1) + pc + 10 ** 30))
+    pre = b.snapshot()
+    st_c, _ = sc.chain.execute('carol', FM, manage_position('Withdraw', identifier='u-c', emergency_unlock=Some(True)), [])
+    # next epoch
+    set_epoch(I, E + 1, now_s=(E + 1) * DAY + 5)
+    sc.chain.time_nanos = I.world.meta['time_nanos']
+    st_a, _ = sc.claim('alice', None)
+    st_b, _ = sc.claim('bob', None)
+    I.observe('status', 'ok' if st_b == 'ok' else 'err')
+    observe_claim_state(I, sc)
+    I.cover('done', HINT)
+    if st_c != 'ok':
+        I.outcome('emergency_exit_refused')
+        return
+    I.check('claims_of_the_remaining_users_succeed', st_a == 'ok' and st_b == 'ok')
+    paid_a = simp(b.get('alice', 'uusd') - pre.get('alice', 'uusd'))
+    paid_b = simp(b.get('bob', 'uusd') - pre.get('bob', 'uusd'))
+    n_epochs = min(E + 1, f0['end'] - 1) - f0['start'] + 1
+    I.check('total_paid_within_emission_of_elapsed_epochs', paid_a + paid_b <= f0['rate'] * n_epochs)
+    # per-epoch: the two shares of the newest epoch never exceed its emission
+    exp_a, _ = sc.expected('alice', E + 1)
+    exp_b, _ = sc.expected('bob', E + 1)
+    I.check('each_user_paid_exactly_their_epoch_shares', smt.And(smt.Eq(paid_a, exp_a), smt.Eq(paid_b, exp_b)))
+
+
+def _replay_emergency_then_claims():
+    from .pm import generic_replay
+
+    def build(m):
+        a_snaps = [(3, m['wa'])]
+        b_snaps = [(6, m['wb'])]
+        t_snaps = [(e, m['others'] + carry(a_snaps, e) + carry(b_snaps, e)) for e in (3, 6)]
+        weights = [('alice', LP1, e, w) for e, w in a_snaps] + [('bob', LP1, e, w) for e, w in b_snaps] + [('farm_manager', LP1, e, w) for e, w in t_snaps]
+        rate = m['rate']
+        steps = fm_state_steps(None, positions=[('u-a', LP1, m['pos_a'], DAY, 'alice', None), ('u-b', LP1, m['pos_b'], DAY, 'bob', None),
+                                                ('u-c', LP1, m['pos_c'], 30 * DAY, 'carol', 25 * DAY)],
+                               farms=[('f-1', 'fowner', LP1, 'uusd', rate * 8, 0, rate, 4, 12)], weights=weights, now_s=E * DAY + 5,
+                               mints=[('farm_manager', [('uusd', m['fm_reward_balance']), (LP1, m['pos_a'] + m['pos_b'] + m['pos_c'] + 10 ** 30)])])
+        steps.append({'op': 'execute', 'contract': 'farm_manager', 'sender': 'carol', 'funds': [],
+                      'msg': {'manage_position': {'action': {'withdraw': {'identifier': 'u-c', 'emergency_unlock': True}}}}})
+        steps.append({'op': 'set_time', 'nanos': str(((E + 1) * DAY + 5) * NS)})
+        for u in ('alice', 'bob'):
+            steps.append({'op': 'execute', 'contract': 'farm_manager', 'sender': u, 'funds': [], 'msg': {'claim': {'until_epoch': None}}})
+        sc = {'setup': {'time_nanos': '0', 'epoch': {'genesis': '0', 'duration': str(DAY)}, 'farm': {'max_concurrent_farms': 2}}, 'steps': steps}
+        return sc, len(steps) - 1
+    return generic_replay(build)
+
+
+obligation('C06', 'B2.emergency_exit_of_closed_position_then_claims', entries=['execute', 'withdraw_position', 'update_weights', 'claim', 'calculate_rewards'],
+           kind='B', statement='a third user emergency-withdraws a closed, still locked position; in the next epoch the two remaining users claim: both succeed, '
+                               'each gets exactly their epoch shares and together never more than the emission',
+           bounds='current epoch 10 then 11, farm [4,12), two users + aggregated remainder, symbolic weights / rate / amounts', covers=['done'],
+           replay=_replay_emergency_then_claims())(_ob_emergency_then_claims)
